@@ -137,6 +137,8 @@ fn method_roundtrip_body<const N: usize>(s: &SymStr<N>) {
 const DESC_ALPHABET: &[u8] = b"BIL;[/a()V.";
 
 //# {"id":"c18_field_desc_t_arrobj","props":["C18","C16"],"tier":"quick","cap":1200,"bound":"all strings [L??; (? = any ASCII byte): arrays of objects with a two-byte class name, incl. [L[I; and [L/a; ; unwind 8","fns":["FieldDescriptorSlice::parse","read_field_type"]}
+//# {"id":"c18_field_desc_t_open","props":["C18","C16"],"tier":"quick","cap":900,"bound":"all strings L? and [L? (? = any ASCII byte): an object type whose terminating ; may be missing; unwind 6","fns":["FieldDescriptorSlice::parse","read_field_type"]}
+//# {"id":"c18_field_desc_ascii2","props":["C18","C16"],"tier":"quick","cap":900,"bound":"every ASCII string of length 0..=2 (the smaller bound stays decidable when a change to the parser makes the 3-byte harness blow up); unwind 5","fns":["duke::tree::field::FieldDescriptorSlice::parse","duke::tree::descriptor::read_field_type"]}
 //# {"id":"c18_field_desc_ascii3","props":["C18","C16"],"tier":"quick","cap":900,"bound":"every ASCII (0x01..0x7F) string of length 0..=3; unwind 6","fns":["duke::tree::field::FieldDescriptorSlice::parse","duke::tree::descriptor::read_field_type"]}
 //# {"id":"c18_return_desc_ascii3","props":["C18","C16"],"tier":"quick","cap":900,"bound":"every ASCII string of length 0..=3; unwind 6","fns":["duke::tree::descriptor::ReturnDescriptorSlice::parse","read_field_type"]}
 //# {"id":"c18_method_desc_len2","props":["C18","C16"],"tier":"thorough","cap":3000,"bound":"every ASCII string of length exactly 2; unwind 4","fns":["duke::tree::method::MethodDescriptorSlice::parse","read_field_type"]}
@@ -159,6 +161,29 @@ proofs! {
 		let want = field_desc_check(&s);
 		witness!(want.is_some(), "an array of objects");
 		witness!(want.is_none() && a == b'[', "an array descriptor where a class name must stand");
+	}
+	#[cfg_attr(kani, kani::unwind(6))]
+	fn c18_field_desc_t_open() {
+		let a = sym::u8();
+		sym::assume(a >= 1 && a < 0x80);
+		if sym::bool() {
+			let s = SymStr::<2> { bytes: [b'L', a], len: 2 };
+			let want = field_desc_check(&s);
+			assert!(want.is_none(), "L followed by one byte is never a complete descriptor");
+		} else {
+			let s = SymStr::<3> { bytes: [b'[', b'L', a], len: 3 };
+			let want = field_desc_check(&s);
+			assert!(want.is_none(), "[L followed by one byte is never a complete descriptor");
+		}
+		witness!(a == b';', "L; (empty class name)");
+		witness!(a == b'A', "LA (terminator missing)");
+	}
+	#[cfg_attr(kani, kani::unwind(5))]
+	fn c18_field_desc_ascii2() {
+		let s = SymStr::<2>::any(0, 2);
+		let want = field_desc_check(&s);
+		witness!(want.is_some(), "a primitive or a one-dimensional primitive array");
+		witness!(want.is_none() && s.len == 2 && s.bytes[0] == b'L', "an object descriptor cut short");
 	}
 	#[cfg_attr(kani, kani::unwind(6))]
 	fn c18_field_desc_ascii3() { let s = SymStr::<3>::any(0, 3); field_desc_body(&s); }
